@@ -68,6 +68,16 @@ class Exec(object):
 
 def prepare(spec, opts):
     # build_from: the objects are built from an earlier version of the model and edited later (opts["edit"]) into `spec`
+    if spec.get("subproject_setup") == "shared-file":
+        # (the saved sub-project lives in a per-process-tree scratch file: a replay in a later process writes it again)
+        import copy
+        from . import families
+
+        path, _ = families._subproject_file()
+        spec = copy.deepcopy(spec)
+        for ts in spec["tasks"]:
+            if ts.get("sub") is not None and ts["sub"].get("file_path"):
+                ts["sub"]["file_path"] = path
     m = S.build(opts.get("build_from") or spec, plain=bool(opts.get("plain")))
     if spec.get("subproject_setup"):
         for t_ in m.tasks:  # sub-project tasks take their size from the saved project they stand for
